@@ -8,8 +8,8 @@ open PV
 
 /-! ## stepping `runBuf` -/
 
-theorem runBuf_read {α : Type} (n : Int) (k : Bytes → Rd α) (a rest : Bytes) (h : n = (a.length : Int)) :
-    runBuf (.read n k) (a ++ rest) = runBuf (k a) rest := by
+theorem runBuf_read {α : Type} {cr : Bool} (n : Int) (k : Bytes → Rd α) (a rest : Bytes) (h : n = (a.length : Int)) :
+    runBuf (.read n cr k) (a ++ rest) = runBuf (k a) rest := by
   conv => lhs; unfold runBuf
   by_cases h0 : n ≤ 0
   · have : a = [] := by
